@@ -1,5 +1,6 @@
 import Generated.SSA_Num
 import Lemmas.GenTie
+import Lemmas.GenTieSpec
 import Props.C01
 /-! # C01, second tie — the definitions regenerated from the Go source are the verified model
 
@@ -27,192 +28,228 @@ open U128 (W)
 
 /-! ## Uint128: constructors, predicates, conversions -/
 
-theorem Uint128From64_eq : Gen.Uint128From64 = U128.from64 := by
+@[gen_eq] theorem Uint128From64_eq : Gen.Uint128From64 = U128.from64 := by
   funext v; gen_tie [U128.from64]
-theorem Uint128FromComponents_eq (high low : W) : Gen.Uint128FromComponents high low = ⟨high, low⟩ := by
+@[gen_eq] theorem Uint128FromComponents_eq (high low : W) : Gen.Uint128FromComponents high low = ⟨high, low⟩ := by
   gen_tie []
-theorem Uint128_Components_eq (u : U128) : Gen.Uint128_Components u = (u.hi, u.lo) := by
+@[gen_eq] theorem Uint128_Components_eq (u : U128) : Gen.Uint128_Components u = (u.hi, u.lo) := by
   gen_tie []
-theorem Uint128_IsZero_eq : Gen.Uint128_IsZero = U128.isZero := by
+@[gen_eq] theorem Uint128_IsZero_eq : Gen.Uint128_IsZero = U128.isZero := by
   funext u; gen_tie [U128.isZero]
-theorem Uint128_IsInt128_eq : Gen.Uint128_IsInt128 = U128.isInt128 := by
+@[gen_eq] theorem Uint128_IsInt128_eq : Gen.Uint128_IsInt128 = U128.isInt128 := by
   funext u; gen_tie [U128.isInt128] [U128.signBit]
-theorem Uint128_AsInt128_eq : Gen.Uint128_AsInt128 = I128.ofU := by
+@[gen_eq] theorem Uint128_AsInt128_eq : Gen.Uint128_AsInt128 = I128.ofU := by
   funext u; gen_tie [I128.ofU]
-theorem Uint128_IsUint64_eq : Gen.Uint128_IsUint64 = U128.isUint64 := by
+@[gen_eq] theorem Uint128_IsUint64_eq : Gen.Uint128_IsUint64 = U128.isUint64 := by
   funext u; gen_tie [U128.isUint64]
-theorem Uint128_AsUint64_eq : Gen.Uint128_AsUint64 = U128.asUint64 := by
+@[gen_eq] theorem Uint128_AsUint64_eq : Gen.Uint128_AsUint64 = U128.asUint64 := by
   funext u; gen_tie [U128.asUint64]
 
 /-! ## Uint128: add, subtract, multiply -/
 
-theorem Uint128_Add_eq : Gen.Uint128_Add = U128.add := by
+@[gen_eq] theorem Uint128_Add_eq : Gen.Uint128_Add = U128.add := by
   funext u n; gen_tie [U128.add]
-theorem Uint128_Add64_eq : Gen.Uint128_Add64 = U128.addW := by
+@[gen_eq] theorem Uint128_Add64_eq : Gen.Uint128_Add64 = U128.addW := by
   funext u n; gen_tie [U128.addW]
-theorem Uint128_Sub_eq : Gen.Uint128_Sub = U128.sub := by
+@[gen_eq] theorem Uint128_Sub_eq : Gen.Uint128_Sub = U128.sub := by
   funext u n; gen_tie [U128.sub]
-theorem Uint128_Sub64_eq : Gen.Uint128_Sub64 = U128.subW := by
+@[gen_eq] theorem Uint128_Sub64_eq : Gen.Uint128_Sub64 = U128.subW := by
   funext u n; gen_tie [U128.subW]
-theorem Uint128_Inc_eq : Gen.Uint128_Inc = U128.inc := by
+@[gen_eq] theorem Uint128_Inc_eq : Gen.Uint128_Inc = U128.inc := by
   funext u; gen_tie [U128.inc]
-theorem Uint128_Dec_eq : Gen.Uint128_Dec = U128.dec := by
+@[gen_eq] theorem Uint128_Dec_eq : Gen.Uint128_Dec = U128.dec := by
   funext u; gen_tie [U128.dec]
-theorem Uint128_Mul_eq : Gen.Uint128_Mul = U128.mul := by
+@[gen_eq] theorem Uint128_Mul_eq : Gen.Uint128_Mul = U128.mul := by
   funext u n; gen_tie [U128.mul]
-theorem Uint128_Mul64_eq : Gen.Uint128_Mul64 = U128.mulW := by
-  funext u n; gen_tie [U128.mulW] [U128.mask32]
+@[gen_eq] theorem Uint128_Mul64_eq : Gen.Uint128_Mul64 = U128.mulW := by
+  funext u n
+  first
+  | gen_tie [U128.mulW] [U128.mask32]
+  | (apply U128.toNat_inj; simp only [Gen.Uint128_Mul64, GenTieSpec.mul64_chain, C01.mul64_spec])
 
 /-! ## Uint128: ordering -/
 
-theorem Uint128_Cmp_eq (u n : U128) : (Gen.Uint128_Cmp u n).toInt = U128.cmp u n := by
+@[gen_eq] theorem Uint128_Cmp_eq (u n : U128) : (Gen.Uint128_Cmp u n).toInt = U128.cmp u n := by
   gen_tie [U128.cmp]
-theorem Uint128_Cmp64_eq (u : U128) (n : W) : (Gen.Uint128_Cmp64 u n).toInt = U128.cmpW u n := by
+@[gen_eq] theorem Uint128_Cmp64_eq (u : U128) (n : W) : (Gen.Uint128_Cmp64 u n).toInt = U128.cmpW u n := by
   gen_tie [U128.cmpW]
-theorem Uint128_GreaterThan_eq : Gen.Uint128_GreaterThan = U128.greaterThan := by
+@[gen_eq] theorem Uint128_GreaterThan_eq : Gen.Uint128_GreaterThan = U128.greaterThan := by
   funext u n; gen_tie [U128.greaterThan]
-theorem Uint128_GreaterThan64_eq : Gen.Uint128_GreaterThan64 = U128.greaterThanW := by
+@[gen_eq] theorem Uint128_GreaterThan64_eq : Gen.Uint128_GreaterThan64 = U128.greaterThanW := by
   funext u n; gen_tie [U128.greaterThanW]
-theorem Uint128_GreaterThanOrEqual_eq : Gen.Uint128_GreaterThanOrEqual = U128.greaterThanOrEqual := by
+@[gen_eq] theorem Uint128_GreaterThanOrEqual_eq : Gen.Uint128_GreaterThanOrEqual = U128.greaterThanOrEqual := by
   funext u n; gen_tie [U128.greaterThanOrEqual]
-theorem Uint128_GreaterThanOrEqual64_eq : Gen.Uint128_GreaterThanOrEqual64 = U128.greaterThanOrEqualW := by
+@[gen_eq] theorem Uint128_GreaterThanOrEqual64_eq : Gen.Uint128_GreaterThanOrEqual64 = U128.greaterThanOrEqualW := by
   funext u n; gen_tie [U128.greaterThanOrEqualW]
-theorem Uint128_Equal_eq : Gen.Uint128_Equal = U128.equal := by
+@[gen_eq] theorem Uint128_Equal_eq : Gen.Uint128_Equal = U128.equal := by
   funext u n; gen_tie [U128.equal]
-theorem Uint128_Equal64_eq : Gen.Uint128_Equal64 = U128.equalW := by
+@[gen_eq] theorem Uint128_Equal64_eq : Gen.Uint128_Equal64 = U128.equalW := by
   funext u n; gen_tie [U128.equalW]
-theorem Uint128_LessThan_eq : Gen.Uint128_LessThan = U128.lessThan := by
+@[gen_eq] theorem Uint128_LessThan_eq : Gen.Uint128_LessThan = U128.lessThan := by
   funext u n; gen_tie [U128.lessThan]
-theorem Uint128_LessThan64_eq : Gen.Uint128_LessThan64 = U128.lessThanW := by
+@[gen_eq] theorem Uint128_LessThan64_eq : Gen.Uint128_LessThan64 = U128.lessThanW := by
   funext u n; gen_tie [U128.lessThanW]
-theorem Uint128_LessThanOrEqual_eq : Gen.Uint128_LessThanOrEqual = U128.lessThanOrEqual := by
+@[gen_eq] theorem Uint128_LessThanOrEqual_eq : Gen.Uint128_LessThanOrEqual = U128.lessThanOrEqual := by
   funext u n; gen_tie [U128.lessThanOrEqual]
-theorem Uint128_LessThanOrEqual64_eq : Gen.Uint128_LessThanOrEqual64 = U128.lessThanOrEqualW := by
+@[gen_eq] theorem Uint128_LessThanOrEqual64_eq : Gen.Uint128_LessThanOrEqual64 = U128.lessThanOrEqualW := by
   funext u n; gen_tie [U128.lessThanOrEqualW]
 
 /-! ## Uint128: bit queries (Go `int` / `uint` results as numbers) -/
 
-theorem Uint128_BitLen_eq (u : U128) : (Gen.Uint128_BitLen u).toNat = U128.bitLen u := by
+@[gen_eq] theorem Uint128_BitLen_eq (u : U128) : (Gen.Uint128_BitLen u).toNat = U128.bitLen u := by
   gen_tie [U128.bitLen]
-theorem Uint128_OnesCount_eq (u : U128) : (Gen.Uint128_OnesCount u).toNat = U128.onesCount u := by
+@[gen_eq] theorem Uint128_OnesCount_eq (u : U128) : (Gen.Uint128_OnesCount u).toNat = U128.onesCount u := by
   gen_tie [U128.onesCount]
-theorem Uint128_LeadingZeros_eq (u : U128) : (Gen.Uint128_LeadingZeros u).toNat = U128.leadingZeros u := by
+@[gen_eq] theorem Uint128_LeadingZeros_eq (u : U128) : (Gen.Uint128_LeadingZeros u).toNat = U128.leadingZeros u := by
   gen_tie [U128.leadingZeros]
-theorem Uint128_TrailingZeros_eq (u : U128) : (Gen.Uint128_TrailingZeros u).toNat = U128.trailingZeros u := by
+@[gen_eq] theorem Uint128_TrailingZeros_eq (u : U128) : (Gen.Uint128_TrailingZeros u).toNat = U128.trailingZeros u := by
   gen_tie [U128.trailingZeros]
-theorem Uint128_Bit_eq (u : U128) (i : W) : (Gen.Uint128_Bit u i).toNat = U128.bit u i.toInt := by
+@[gen_eq] theorem Uint128_Bit_eq (u : U128) (i : W) : (Gen.Uint128_Bit u i).toNat = U128.bit u i.toInt := by
   gen_tie [GenTie.bit_w]
-theorem Uint128_SetBit_eq (u : U128) (i b : W) : Gen.Uint128_SetBit u i b = U128.setBit u i.toInt b.toNat := by
+@[gen_eq] theorem Uint128_SetBit_eq (u : U128) (i b : W) : Gen.Uint128_SetBit u i b = U128.setBit u i.toInt b.toNat := by
   gen_tie [GenTie.setBit_w]
 
 /-! ## Uint128: bitwise operations and shifts -/
 
-theorem Uint128_Not_eq : Gen.Uint128_Not = U128.not := by
+@[gen_eq] theorem Uint128_Not_eq : Gen.Uint128_Not = U128.not := by
   funext u; gen_tie [U128.not]
-theorem Uint128_And_eq : Gen.Uint128_And = U128.and := by
+@[gen_eq] theorem Uint128_And_eq : Gen.Uint128_And = U128.and := by
   funext u n; gen_tie [U128.and]
-theorem Uint128_And64_eq : Gen.Uint128_And64 = U128.andW := by
+@[gen_eq] theorem Uint128_And64_eq : Gen.Uint128_And64 = U128.andW := by
   funext u n; gen_tie [U128.andW]
-theorem Uint128_AndNot_eq : Gen.Uint128_AndNot = U128.andNot := by
+@[gen_eq] theorem Uint128_AndNot_eq : Gen.Uint128_AndNot = U128.andNot := by
   funext u n; gen_tie [U128.andNot]
-theorem Uint128_AndNot64_eq : Gen.Uint128_AndNot64 = U128.andNot64 := by
+@[gen_eq] theorem Uint128_AndNot64_eq : Gen.Uint128_AndNot64 = U128.andNot64 := by
   funext u n; gen_tie [U128.andNot64]
-theorem Uint128_Or_eq : Gen.Uint128_Or = U128.or := by
+@[gen_eq] theorem Uint128_Or_eq : Gen.Uint128_Or = U128.or := by
   funext u n; gen_tie [U128.or]
-theorem Uint128_Or64_eq : Gen.Uint128_Or64 = U128.orW := by
+@[gen_eq] theorem Uint128_Or64_eq : Gen.Uint128_Or64 = U128.orW := by
   funext u n; gen_tie [U128.orW]
-theorem Uint128_Xor_eq : Gen.Uint128_Xor = U128.xor := by
+@[gen_eq] theorem Uint128_Xor_eq : Gen.Uint128_Xor = U128.xor := by
   funext u n; gen_tie [U128.xor]
-theorem Uint128_Xor64_eq : Gen.Uint128_Xor64 = U128.xorW := by
+@[gen_eq] theorem Uint128_Xor64_eq : Gen.Uint128_Xor64 = U128.xorW := by
   funext u n; gen_tie [U128.xorW]
-theorem Uint128_LeftShift_eq (u : U128) (n : W) : Gen.Uint128_LeftShift u n = U128.leftShift u n.toNat := by
+@[gen_eq] theorem Uint128_LeftShift_eq (u : U128) (n : W) : Gen.Uint128_LeftShift u n = U128.leftShift u n.toNat := by
   gen_tie [U128.leftShift, U128.shl_eq]
-theorem Uint128_RightShift_eq (u : U128) (n : W) : Gen.Uint128_RightShift u n = U128.rightShift u n.toNat := by
+@[gen_eq] theorem Uint128_RightShift_eq (u : U128) (n : W) : Gen.Uint128_RightShift u n = U128.rightShift u n.toNat := by
   gen_tie [U128.rightShift, U128.shr_eq]
 
 /-! ## Int128: constructors, predicates, conversions -/
 
-theorem Int128From64_eq : Gen.Int128From64 = I128.from64 := by
+@[gen_eq] theorem Int128From64_eq : Gen.Int128From64 = I128.from64 := by
   funext v; gen_tie [I128.from64, I128.ext64, I128.neg64] [I128.maxU64]
-theorem Int128FromUint64_eq : Gen.Int128FromUint64 = I128.fromUint64 := by
+@[gen_eq] theorem Int128FromUint64_eq : Gen.Int128FromUint64 = I128.fromUint64 := by
   funext v; gen_tie [I128.fromUint64]
-theorem Int128FromComponents_eq (high low : W) : Gen.Int128FromComponents high low = ⟨high, low⟩ := by
+@[gen_eq] theorem Int128FromComponents_eq (high low : W) : Gen.Int128FromComponents high low = ⟨high, low⟩ := by
   gen_tie []
-theorem Int128_Components_eq (i : I128) : Gen.Int128_Components i = (i.hi, i.lo) := by
+@[gen_eq] theorem Int128_Components_eq (i : I128) : Gen.Int128_Components i = (i.hi, i.lo) := by
   gen_tie []
-theorem Int128_IsZero_eq : Gen.Int128_IsZero = I128.isZero := by
+@[gen_eq] theorem Int128_IsZero_eq : Gen.Int128_IsZero = I128.isZero := by
   funext i; gen_tie [I128.isZero]
-theorem Int128_IsUint128_eq : Gen.Int128_IsUint128 = I128.isUint128 := by
+@[gen_eq] theorem Int128_IsUint128_eq : Gen.Int128_IsUint128 = I128.isUint128 := by
   funext i; gen_tie [I128.isUint128] [U128.signBit]
-theorem Int128_AsUint128_eq : Gen.Int128_AsUint128 = I128.toU := by
+@[gen_eq] theorem Int128_AsUint128_eq : Gen.Int128_AsUint128 = I128.toU := by
   funext i; gen_tie [I128.toU]
-theorem Int128_IsInt64_eq : Gen.Int128_IsInt64 = I128.isInt64 := by
+@[gen_eq] theorem Int128_IsInt64_eq : Gen.Int128_IsInt64 = I128.isInt64 := by
   funext i; gen_tie [I128.isInt64] [I128.maxU64, I128.maxI64, U128.signBit]
-theorem Int128_AsInt64_eq : Gen.Int128_AsInt64 = I128.asInt64 := by
+@[gen_eq] theorem Int128_AsInt64_eq : Gen.Int128_AsInt64 = I128.asInt64 := by
   funext i; gen_tie [I128.asInt64] [U128.signBit]
-theorem Int128_IsUint64_eq : Gen.Int128_IsUint64 = I128.isUint64 := by
+@[gen_eq] theorem Int128_IsUint64_eq : Gen.Int128_IsUint64 = I128.isUint64 := by
   funext i; gen_tie [I128.isUint64]
-theorem Int128_AsUint64_eq : Gen.Int128_AsUint64 = I128.asUint64 := by
+@[gen_eq] theorem Int128_AsUint64_eq : Gen.Int128_AsUint64 = I128.asUint64 := by
   funext i; gen_tie [I128.asUint64]
 
 /-! ## Int128: add, subtract, multiply, negate -/
 
-theorem Int128_Add_eq : Gen.Int128_Add = I128.add := by
+@[gen_eq] theorem Int128_Add_eq : Gen.Int128_Add = I128.add := by
   funext i n; gen_tie [I128.add]
-theorem Int128_Add64_eq : Gen.Int128_Add64 = I128.addW := by
+@[gen_eq] theorem Int128_Add64_eq : Gen.Int128_Add64 = I128.addW := by
   funext i n; gen_tie [I128.addW, I128.neg64] [I128.maxU64]
-theorem Int128_Sub_eq : Gen.Int128_Sub = I128.sub := by
+@[gen_eq] theorem Int128_Sub_eq : Gen.Int128_Sub = I128.sub := by
   funext i n; gen_tie [I128.sub]
-theorem Int128_Sub64_eq : Gen.Int128_Sub64 = I128.subW := by
+@[gen_eq] theorem Int128_Sub64_eq : Gen.Int128_Sub64 = I128.subW := by
   funext i n; gen_tie [I128.subW, I128.neg64] [I128.maxU64]
-theorem Int128_Inc_eq : Gen.Int128_Inc = I128.inc := by
+@[gen_eq] theorem Int128_Inc_eq : Gen.Int128_Inc = I128.inc := by
   funext i; gen_tie [I128.inc, U128.inc, I128.ofU, I128.toU]
-theorem Int128_Dec_eq : Gen.Int128_Dec = I128.dec := by
+@[gen_eq] theorem Int128_Dec_eq : Gen.Int128_Dec = I128.dec := by
   funext i; gen_tie [I128.dec, U128.dec, I128.ofU, I128.toU]
-theorem Int128_Mul_eq : Gen.Int128_Mul = I128.mul := by
+@[gen_eq] theorem Int128_Mul_eq : Gen.Int128_Mul = I128.mul := by
   funext i n; gen_tie [I128.mul]
-theorem Int128_Mul64_eq : Gen.Int128_Mul64 = I128.mulW := by
+@[gen_eq] theorem Int128_Mul64_eq : Gen.Int128_Mul64 = I128.mulW := by
   funext i n
   gen_tie [I128.mulW, I128.mul, I128.from64, I128.ext64, I128.neg64] [I128.maxU64]
-theorem Int128_Sign_eq (i : I128) : (Gen.Int128_Sign i).toInt = I128.sign i := by
+@[gen_eq] theorem Int128_Sign_eq (i : I128) : (Gen.Int128_Sign i).toInt = I128.sign i := by
   gen_tie [I128.sign] [U128.signBit]
-theorem Int128_Neg_eq : Gen.Int128_Neg = I128.neg := by
-  funext i; gen_tie [I128.neg] [I128.minI128, U128.signBit]
-theorem Int128_Abs_eq : Gen.Int128_Abs = I128.abs := by
-  funext i; gen_tie [I128.abs] [U128.signBit]
-theorem Int128_AbsUint128_eq : Gen.Int128_AbsUint128 = I128.absUint128 := by
-  funext i; gen_tie [I128.absUint128, I128.toU] [I128.minI128, U128.signBit]
+@[gen_eq] theorem Int128_Neg_eq : Gen.Int128_Neg = I128.neg := by
+  funext i
+  first
+  | gen_tie [I128.neg] [I128.minI128, U128.signBit]
+  | (apply I128.toInt_inj; have := GenTieSpec.toInt_bounds i; tie_spec [Gen.Int128_Neg])
+@[gen_eq] theorem Int128_Abs_eq : Gen.Int128_Abs = I128.abs := by
+  funext i
+  first
+  | gen_tie [I128.abs] [U128.signBit]
+  | (apply I128.toInt_inj; have := GenTieSpec.toInt_bounds i; tie_spec [Gen.Int128_Abs])
+@[gen_eq] theorem Int128_AbsUint128_eq : Gen.Int128_AbsUint128 = I128.absUint128 := by
+  funext i
+  first
+  | gen_tie [I128.absUint128, I128.toU] [I128.minI128, U128.signBit]
+  | (apply U128.toNat_inj; refine Int.natCast_inj.mp ?_; have := GenTieSpec.toInt_bounds i; tie_spec [Gen.Int128_AbsUint128])
 
 /-! ## Int128: ordering -/
 
-theorem Int128_Cmp_eq (i n : I128) : (Gen.Int128_Cmp i n).toInt = I128.cmp i n := by
-  gen_tie [I128.cmp, I128.cmpHL] [U128.signBit]
-theorem Int128_Cmp64_eq (i : I128) (n : W) : (Gen.Int128_Cmp64 i n).toInt = I128.cmpW i n := by
-  gen_tie [I128.cmpW, I128.cmpHL, I128.ext64, I128.neg64] [I128.maxU64, U128.signBit]
-theorem Int128_GreaterThan_eq : Gen.Int128_GreaterThan = I128.greaterThan := by
-  funext i n; gen_tie [I128.greaterThan, I128.gtHL] [U128.signBit]
-theorem Int128_GreaterThan64_eq : Gen.Int128_GreaterThan64 = I128.greaterThanW := by
-  funext i n
-  gen_tie [I128.greaterThanW, I128.gtHL, I128.ext64, I128.neg64] [I128.maxU64, U128.signBit]
-theorem Int128_GreaterThanOrEqual_eq : Gen.Int128_GreaterThanOrEqual = I128.greaterThanOrEqual := by
-  funext i n; gen_tie [I128.greaterThanOrEqual, I128.geHL] [U128.signBit]
-theorem Int128_GreaterThanOrEqual64_eq : Gen.Int128_GreaterThanOrEqual64 = I128.greaterThanOrEqualW := by
-  funext i n
-  gen_tie [I128.greaterThanOrEqualW, I128.geHL, I128.ext64, I128.neg64] [I128.maxU64, U128.signBit]
-theorem Int128_Equal_eq : Gen.Int128_Equal = I128.equal := by
-  funext i n; gen_tie [I128.equal]
-theorem Int128_Equal64_eq : Gen.Int128_Equal64 = I128.equalW := by
-  funext i n; gen_tie [I128.equalW, I128.ext64, I128.neg64] [I128.maxU64]
-theorem Int128_LessThan_eq : Gen.Int128_LessThan = I128.lessThan := by
+@[gen_eq] theorem Int128_LessThan_eq : Gen.Int128_LessThan = I128.lessThan := by
   funext i n; gen_tie [I128.lessThan, I128.ltHL] [U128.signBit]
-theorem Int128_LessThan64_eq : Gen.Int128_LessThan64 = I128.lessThanW := by
+@[gen_eq] theorem Int128_Cmp_eq (i n : I128) : (Gen.Int128_Cmp i n).toInt = I128.cmp i n := by
+  first
+  | gen_tie [I128.cmp, I128.cmpHL] [U128.signBit]
+  | (tie_spec [Gen.Int128_Cmp])
+@[gen_eq] theorem Int128_Cmp64_eq (i : I128) (n : W) : (Gen.Int128_Cmp64 i n).toInt = I128.cmpW i n := by
+  first
+  | (tie_spec [Gen.Int128_Cmp64])
+  | gen_tie [I128.cmpW, I128.cmpHL, I128.ext64, I128.neg64] [I128.maxU64, U128.signBit]
+@[gen_eq] theorem Int128_GreaterThan_eq : Gen.Int128_GreaterThan = I128.greaterThan := by
   funext i n
-  gen_tie [I128.lessThanW, I128.ltHL, I128.ext64, I128.neg64] [I128.maxU64, U128.signBit]
-theorem Int128_LessThanOrEqual_eq : Gen.Int128_LessThanOrEqual = I128.lessThanOrEqual := by
-  funext i n; gen_tie [I128.lessThanOrEqual, I128.leHL] [U128.signBit]
-theorem Int128_LessThanOrEqual64_eq : Gen.Int128_LessThanOrEqual64 = I128.lessThanOrEqualW := by
+  first
+  | gen_tie [I128.greaterThan, I128.gtHL] [U128.signBit]
+  | (tie_spec [Gen.Int128_GreaterThan])
+@[gen_eq] theorem Int128_GreaterThan64_eq : Gen.Int128_GreaterThan64 = I128.greaterThanW := by
   funext i n
-  gen_tie [I128.lessThanOrEqualW, I128.leHL, I128.ext64, I128.neg64] [I128.maxU64, U128.signBit]
+  first
+  | gen_tie [I128.greaterThanW, I128.gtHL, I128.ext64, I128.neg64] [I128.maxU64, U128.signBit]
+  | (tie_spec [Gen.Int128_GreaterThan64])
+@[gen_eq] theorem Int128_GreaterThanOrEqual_eq : Gen.Int128_GreaterThanOrEqual = I128.greaterThanOrEqual := by
+  funext i n
+  first
+  | gen_tie [I128.greaterThanOrEqual, I128.geHL] [U128.signBit]
+  | (tie_spec [Gen.Int128_GreaterThanOrEqual])
+@[gen_eq] theorem Int128_GreaterThanOrEqual64_eq : Gen.Int128_GreaterThanOrEqual64 = I128.greaterThanOrEqualW := by
+  funext i n
+  first
+  | gen_tie [I128.greaterThanOrEqualW, I128.geHL, I128.ext64, I128.neg64] [I128.maxU64, U128.signBit]
+  | (tie_spec [Gen.Int128_GreaterThanOrEqual64])
+@[gen_eq] theorem Int128_Equal_eq : Gen.Int128_Equal = I128.equal := by
+  funext i n; gen_tie [I128.equal]
+@[gen_eq] theorem Int128_Equal64_eq : Gen.Int128_Equal64 = I128.equalW := by
+  funext i n
+  first
+  | gen_tie [I128.equalW, I128.ext64, I128.neg64] [I128.maxU64]
+  | (tie_spec [Gen.Int128_Equal64])
+@[gen_eq] theorem Int128_LessThan64_eq : Gen.Int128_LessThan64 = I128.lessThanW := by
+  funext i n
+  first
+  | gen_tie [I128.lessThanW, I128.ltHL, I128.ext64, I128.neg64] [I128.maxU64, U128.signBit]
+  | (tie_spec [Gen.Int128_LessThan64])
+@[gen_eq] theorem Int128_LessThanOrEqual_eq : Gen.Int128_LessThanOrEqual = I128.lessThanOrEqual := by
+  funext i n
+  first
+  | gen_tie [I128.lessThanOrEqual, I128.leHL] [U128.signBit]
+  | (tie_spec [Gen.Int128_LessThanOrEqual])
+@[gen_eq] theorem Int128_LessThanOrEqual64_eq : Gen.Int128_LessThanOrEqual64 = I128.lessThanOrEqualW := by
+  funext i n
+  first
+  | gen_tie [I128.lessThanOrEqualW, I128.leHL, I128.ext64, I128.neg64] [I128.maxU64, U128.signBit]
+  | (tie_spec [Gen.Int128_LessThanOrEqual64])
 
 /-! ## transported specifications
 
